@@ -26,6 +26,33 @@ func c01Trans(c *Ctx, pre *Node, st Step, res *Result, post *State) ([]Violation
 		vs = append(vs, Violation{Oracle: oracle, Command: st.Cmd(), Tags: tags, Detail: fmt.Sprintf(f, args...) + outputTail(res)})
 	}
 	switch {
+	case st.Cmd() == "cat-file" && hasTag(st.Tags, "tree-listing") && len(st.Args) == 3:
+		// a tree object: kind "tree"; the printed listing names every entry (id and name), one per line, in order
+		o := pa.GoodObj(st.Args[2])
+		if o == nil {
+			break
+		}
+		es, err := ParseTree(o.Body)
+		if err != nil {
+			break
+		}
+		if st.Args[1] == "-t" {
+			if res.Exit != 0 || res.Stdout != "tree\n" {
+				bad("cat-file-kind", "cat-file -t of a tree of %d entries printed %q (exit %d)", len(es), trunc(res.Stdout, 40), res.Exit)
+			}
+			break
+		}
+		lines := strings.Split(strings.TrimSuffix(res.Stdout, "\n"), "\n")
+		if res.Exit != 0 || len(lines) != len(es) {
+			bad("cat-file-tree-entries", "cat-file -p of a tree of %d entries printed %d lines (exit %d)", len(es), len(lines), res.Exit)
+			break
+		}
+		for i, en := range es {
+			if !strings.Contains(lines[i], en.ID) || !strings.HasSuffix(lines[i], en.Name) {
+				bad("cat-file-tree-entries", "line %d of the listing is %q; the stored entry is %s %s", i, trunc(lines[i], 120), en.ID, trunc(en.Name, 60))
+				break
+			}
+		}
 	case st.Cmd() == "hash-object" && len(st.Args) > 2:
 		// several files in one invocation: one id per argument, each the id of that file
 		want := ""
@@ -136,6 +163,31 @@ func checkC01(e *RunEnv) *CheckResult {
 				t = append(t, "payload-has-nul")
 			}
 			steps := []Step{{Op: "write", Path: "f", Data: p}, Write("g", "other file\n"), Run("hash-object", "f").WithTags(t...), Run("hash-object", "g", "f", "g", "f").WithTags(t...), Run("add", "f").WithTags(t...), Run("cat-file", "-t", id).WithTags(t...), Run("cat-file", "-p", id).WithTags(t...)}
+			cs = append(cs, Case{Base: base, BaseName: "S0", BaseSeed: seedS0(), Steps: steps})
+		}
+		// a temporary file left behind by an interrupted earlier attempt to store the same blob
+		for _, p := range [][]byte{[]byte("left behind\n"), {}, xorshiftBytes(4097)} {
+			id := BlobID(p)
+			t := []string{"leftover-tmp"}
+			cs = append(cs, Case{Base: base, BaseName: "S0", BaseSeed: seedS0(), Steps: []Step{{Op: "write", Path: "f", Data: p}, Write(".goit/objects/"+id[:2]+"/"+id[2:]+".tmp", "partial"), Run("add", "f").WithTags(t...), Run("cat-file", "-t", id).WithTags(t...), Run("cat-file", "-p", id).WithTags(t...)}})
+		}
+		// tree objects: 150 and 900 entries (more than 4 KiB / 32 KiB of tree data), entry names of 250 and 255 bytes
+		for _, n := range []int{150, 900} {
+			files := map[string]string{"f": "f\n", strings.Repeat("n", 255): "255\n", "big/" + strings.Repeat("m", 250): "250\n"}
+			for i := 0; i < n; i++ {
+				files[fmt.Sprintf("big/file-%04d", i)] = fmt.Sprintf("content %d\n", i)
+			}
+			ids := map[string]string{}
+			var steps []Step
+			for _, p := range keys(files) {
+				steps = append(steps, Write(p, files[p]))
+				ids[p] = BlobID([]byte(files[p]))
+			}
+			steps = append(steps, Run("add", "."), Run("commit", "-m", "trees"))
+			_, trees := BuildTrees(ids)
+			for _, tid := range keysB(trees) {
+				steps = append(steps, Run("cat-file", "-t", tid).WithTags("tree-listing"), Run("cat-file", "-p", tid).WithTags("tree-listing"))
+			}
 			cs = append(cs, Case{Base: base, BaseName: "S0", BaseSeed: seedS0(), Steps: steps})
 		}
 		cli = x.RunCases(cs)
